@@ -15,7 +15,7 @@ def handleC09 (line : String) : String :=
   | ["ident", h] => normIdentHex h
   | ["props"] =>
     s!"inj={kwMapInjective} cover={kwMapCoversShared} total={kwMapTotal} lookup={lookupSeparatesModes && lookupRowsComplete} " ++
-    s!"texts={keywordTextsDistinct} punct={punctModeIndependent} sel={selectorIsPeriod} clauses={consumerClausesClosed} " ++
+    s!"texts={keywordTextsDistinct} punct={punctModeIndependent} sel={selectorIsPeriod} clauses={consumerClausesClosed} bclauses={builtinClausesClosed} " ++
     s!"uinj={universeInjective} utotal={universeTotal} uone={universeExactlyOne}"
   | ["mismatch"] =>
     let nm (i : Nat) : String := (Gen.names[i]?).getD "?"
